@@ -79,6 +79,10 @@ def gen_data(rng: Rng, thorough: bool) -> list[bytes]:
     for _ in range(30 if thorough else 6):
         out.append(bytes(rng.randrange(256) for _ in range(rng.randrange(66, 700))))
     out.append(bytes(rng.randrange(256) for _ in range(4096 if thorough else 1500)))
+    # files of several read blocks (the implementation reads 4096-byte or chunk-length blocks): chunk lengths
+    # that do not divide 4096 or exceed it, prefix lengths around the block boundaries
+    for n in ((10000, 8193, 20011) if thorough else (10000,)):
+        out.append(bytes(rng.randrange(256) for _ in range(n)))
     return out
 
 
@@ -86,6 +90,18 @@ def cases_for(rng: Rng, data: bytes, thorough: bool):
     """(type, size, seg) triples"""
     n = len(data)
     cases = []
+    if n > 5000:
+        sizes = sorted({n, n - 1, 4095, 4096, 4097, 8192, 8193, rng.randrange(4097, n)} & set(range(n + 1)))
+        segs = [7, 1000, 4095, 4096, 4097, 6000, n + 1, rng.randrange(1, 9000)]
+        if not thorough:
+            sizes = [n, 4097] + rng.sample(sizes, 2)
+        for t in (3, 2):
+            for size in sizes:
+                for seg in segs:
+                    cases.append((t, size, seg))
+        for seg in (7, 4097):
+            cases.append((0, n, seg))
+        return cases
     if n <= 17:
         sizes = list(range(0, n + 3))
         segs = list(range(1, n + 2)) + [4096]
